@@ -223,6 +223,59 @@ theorem sparse_local_seek (content : Bytes) (rs : List Region) (h : Covers conte
 theorem sparse_local_blocks (content : Bytes) : localBlocks content = content :=
   localBlocks_eq content
 
+/-! ### whatever the destination path held before
+
+  The helpers and the local sparse copiers are also used over an *existing* destination (a re-sent
+  image, an update). `File::create` truncates it first; the constants regenerated from the source
+  say whether the code still does. -/
+
+theorem consts_ok_writers_truncate :
+    Generated.HELPER_RECEIVE_FILE_TRUNCATES = true ∧ Generated.HELPER_SPARSE_TRUNCATES = true ∧
+    Generated.LOCAL_SPARSE_SEEK_CREATES = 1 ∧ Generated.LOCAL_SPARSE_BLOCKS_CREATES = 1 := by decide
+
+/-- the open mode of `receive-file` / `receive-sparse-file` as the source has it on this run. -/
+def receiveFileMode : OpenMode := OpenMode.ofTruncates Generated.HELPER_RECEIVE_FILE_TRUNCATES
+def receiveSparseMode : OpenMode := OpenMode.ofTruncates Generated.HELPER_SPARSE_TRUNCATES
+
+/-- `receive-file` over any existing destination content writes exactly what it writes to a fresh
+    path. -/
+theorem receive_file_ignores_prior (Z : Codec) (prior : Option Bytes) (stdin : Bytes) (m : Option Nat) :
+    receiveFileOver receiveFileMode Z prior stdin m = receiveFile Z stdin m := by
+  have h : receiveFileMode = .create := by
+    simp [receiveFileMode, OpenMode.ofTruncates, consts_ok_writers_truncate.1]
+  simp [receiveFileOver, receiveFile, h, openOutput, writeAll]
+
+/-- `receive-sparse-file` over any existing destination content (same size, longer, shorter, any
+    bytes in what are now holes) rebuilds exactly the source content. -/
+theorem sparse_helper_transparent_over_prior (prior : Option Bytes) (content : Bytes) (r : Region)
+    (rs : List Region) (h : Covers content (r :: rs)) (srcMtimeNs : Option Nat) :
+    ∃ total regs stdin m,
+      sendSparse content (some (r :: rs)) srcMtimeNs = .helper total regs stdin m ∧
+      receiveSparseFileOver receiveSparseMode prior total regs stdin m =
+        some { content := content, mtimeSec := mtimeSecs srcMtimeNs } := by
+  obtain ⟨total, regs, stdin, m, hs, hr⟩ := sparse_helper_transparent content r rs h srcMtimeNs
+  refine ⟨total, regs, stdin, m, hs, ?_⟩
+  have hm : receiveSparseMode = .create := by
+    simp [receiveSparseMode, OpenMode.ofTruncates, consts_ok_writers_truncate.2.1]
+  rw [← hr]
+  simp [receiveSparseFileOver, receiveSparseFile, receiveSparseOver, receiveSparse, hm, openOutput]
+
+/-- both local sparse copiers over any existing destination content. -/
+theorem sparse_local_over_prior (prior : Option Bytes) (content : Bytes) (rs : List Region)
+    (h : Covers content rs) :
+    localSeekOver .create prior content rs = content ∧ localBlocksOver .create prior content = content :=
+  ⟨sparse_local_seek content rs h, sparse_local_blocks content⟩
+
+/-- Why the open mode matters (the witness a change from `File::create` to a non-truncating open
+    would reproduce): stale bytes survive in what is a hole of the new layout, and beyond the end of
+    a shorter `receive-file` payload. -/
+theorem keep_mode_counterexample :
+    receiveSparseOver .keep (some [9, 9, 9, 9]) 4 [{ offset := 1, length := 2 }] [7, 8] = some [9, 7, 8, 9] ∧
+    receiveSparseOver .create (some [9, 9, 9, 9]) 4 [{ offset := 1, length := 2 }] [7, 8] = some [0, 7, 8, 0] ∧
+    (receiveFileOver .keep toyZ (some [9, 9, 9]) [1] none).map (·.content) = some [1, 9, 9] := by
+  refine ⟨by decide, by decide, ?_⟩
+  simp [receiveFileOver, sniff, hasZstdMagic, openOutput, writeAll]
+
 /-! ### non-vacuity -/
 
 example : toyZ.Sound := toyZ_sound
